@@ -163,3 +163,103 @@ pub fn atomic_batch_count_state<'a>(
         out.into_stream()
     }
 }
+
+// ---- one collection consumed by TWO slices ------------------------------------------------------
+// Every slice must see a partition of the FULL input of the shared collection.
+
+type KeyedRecord = Vec<(u32, Vec<u32>)>;
+
+fn keyed_slice_ordered<'a>(keyed: KeyedStream<u32, u32, P<'a>, Unbounded>) -> Stream<KeyedRecord, P<'a>, Unbounded> {
+    sliced! {
+        let batch = use::batch(keyed, nondet!(/** verif */));
+        batch
+            .fold(q!(|| Vec::new()), q!(|acc: &mut Vec<u32>, v| acc.push(v)))
+            .entries()
+            .fold(
+                q!(|| Vec::new()),
+                q!(|acc: &mut Vec<(u32, Vec<u32>)>, kv| {
+                    acc.push(kv);
+                    acc.sort();
+                }, commutative = manual_proof!(/** sorted after every insert */)),
+            )
+            .into_stream()
+    }
+}
+
+fn keyed_slice_unordered<'a>(keyed: KeyedStream<u32, u32, P<'a>, Unbounded, NoOrder>) -> Stream<KeyedRecord, P<'a>, Unbounded> {
+    sliced! {
+        let batch = use::batch(keyed, nondet!(/** verif */));
+        batch
+            .fold(
+                q!(|| Vec::new()),
+                q!(|acc: &mut Vec<u32>, v| {
+                    acc.push(v);
+                    acc.sort();
+                }, commutative = manual_proof!(/** sorted after every insert */)),
+            )
+            .entries()
+            .fold(
+                q!(|| Vec::new()),
+                q!(|acc: &mut Vec<(u32, Vec<u32>)>, kv| {
+                    acc.push(kv);
+                    acc.sort();
+                }, commutative = manual_proof!(/** sorted after every insert */)),
+            )
+            .into_stream()
+    }
+}
+
+/// P8: one keyed stream batched by two slices. Records as P6, one stream per slice.
+#[expect(clippy::type_complexity, reason = "corpus program")]
+pub fn shared_keyed_two_slices<'a>(
+    input: Stream<(u32, u32), P<'a>, Unbounded>,
+) -> (Stream<KeyedRecord, P<'a>, Unbounded>, Stream<KeyedRecord, P<'a>, Unbounded>) {
+    let keyed = input.into_keyed();
+    (keyed_slice_ordered(keyed.clone()), keyed_slice_ordered(keyed))
+}
+
+/// P9: one (unkeyed) stream batched by two slices. Record: batch contents.
+#[expect(clippy::type_complexity, reason = "corpus program")]
+pub fn shared_stream_two_slices<'a>(
+    input: Stream<u32, P<'a>, Unbounded>,
+) -> (Stream<Vec<u32>, P<'a>, Unbounded>, Stream<Vec<u32>, P<'a>, Unbounded>) {
+    let a = sliced! {
+        let batch = use::batch(input.clone(), nondet!(/** verif */));
+        batch.collect_vec().into_stream()
+    };
+    let b = sliced! {
+        let batch = use::batch(input, nondet!(/** verif */));
+        batch.collect_vec().into_stream()
+    };
+    (a, b)
+}
+
+/// P10: one singleton snapshotted by two slices (each also batches the shared input stream).
+/// Record: (batch contents, count snapshot).
+#[expect(clippy::type_complexity, reason = "corpus program")]
+pub fn shared_snapshot_two_slices<'a>(
+    input: Stream<u32, P<'a>, Unbounded>,
+) -> (Stream<(Vec<u32>, usize), P<'a>, Unbounded>, Stream<(Vec<u32>, usize), P<'a>, Unbounded>) {
+    let total = input.clone().count();
+    let a = sliced! {
+        let batch = use::batch(input.clone(), nondet!(/** verif */));
+        let snap = use::snapshot(total.clone(), nondet!(/** verif */));
+        batch.collect_vec().zip(snap).into_stream()
+    };
+    let b = sliced! {
+        let batch = use::batch(input, nondet!(/** verif */));
+        let snap = use::snapshot(total, nondet!(/** verif */));
+        batch.collect_vec().zip(snap).into_stream()
+    };
+    (a, b)
+}
+
+/// P11: one keyed stream with an ordered and an unordered consumer slice (values of the
+/// unordered record are sorted per key; the checker compares them as multisets).
+#[expect(clippy::type_complexity, reason = "corpus program")]
+pub fn shared_keyed_ordered_and_unordered<'a>(
+    input: Stream<(u32, u32), P<'a>, Unbounded>,
+) -> (Stream<KeyedRecord, P<'a>, Unbounded>, Stream<KeyedRecord, P<'a>, Unbounded>) {
+    let keyed = input.into_keyed();
+    (keyed_slice_ordered(keyed.clone()), keyed_slice_unordered(keyed.weaken_ordering::<NoOrder>()))
+}
